@@ -140,7 +140,7 @@ def stepC03x (op : String) (args : List String) : Option String :=
       | some ms => showRes showBootConf6 (conversationToNetconf ms))
   | "c03xztp6", [h] => on6 h fun m => showRes showVendor6 (ztp6ParseVendorData m)
   | "c03xrid", [h] => on6 h fun m => showRes showCircuit (parseRemoteID matchCircuitId6 m)
-  | "c03xreenc6", [h] => on6 h fun m => "ok " ++ hex (encMsg m)
+  | "c03xreenc6", [h] => on6 h fun m => showRes hex (encMsgR m)
   | "c03xztp4", [h] => on4 h fun p => showRes showVendor4 (V4.Obs.parseVendorData (Client.Lease.toG p.opts))
   | "c03xnetconf4", [h] => on4 h fun p =>
     showRes showNetConf4 (V4.Obs.getNetConfFromPacketv4 p.yiaddr (Client.Lease.toG p.opts))
